@@ -24,6 +24,7 @@ type Case struct {
 	Segs  []string       `json:"segments,omitempty"`
 	Form  string         `json:"segment_form,omitempty"` // "string", "int", "parsed"
 	Local bool           `json:"walk_local,omitempty"`
+	Once  bool           `json:"link_visit_only_once,omitempty"` // the walk runs with LinkVisitOnlyOnce
 }
 
 func mkPath(segs []string, form string) datamodel.Path {
@@ -193,7 +194,12 @@ func CheckVisits(b *trav.Built, c Case) (fs []core.Finding, n int, outcome strin
 		if err != nil {
 			return nil, 0, "uncompilable"
 		}
-		w := trav.RunWalk(b, b.Root, sel, trav.NoOpts())
+		o := trav.NoOpts()
+		o.Once = c.Once
+		if c.Once {
+			where += " (LinkVisitOnlyOnce)"
+		}
+		w := trav.RunWalk(b, b.Root, sel, o)
 		visits = w.Visits
 	}
 	for _, v := range visits {
@@ -386,14 +392,19 @@ func Main(r *core.Run) {
 		oc := map[string]int64{}
 		// (1) visits
 		for _, s := range ss {
-			c := Case{Mode: "visit", Graph: gs[gi], Sel: s}
-			fs, n, outcome := CheckVisits(b, c)
-			lc.Transitions += int64(n)
-			lc.Traces++
-			lc.Evals += int64(n)
-			oc["visit:"+outcome]++
-			nt += int64(n)
-			r.Report("visit", c, fs)
+			for _, once := range []bool{false, true} {
+				if once && len(b.Links) < 2 {
+					continue // visit-once matters where a link can occur twice
+				}
+				c := Case{Mode: "visit", Graph: gs[gi], Sel: s, Once: once}
+				fs, n, outcome := CheckVisits(b, c)
+				lc.Transitions += int64(n)
+				lc.Traces++
+				lc.Evals += int64(n)
+				oc["visit:"+outcome]++
+				nt += int64(n)
+				r.Report("visit", c, fs)
+			}
 		}
 		c := Case{Mode: "visit", Graph: gs[gi], Local: true}
 		fs, n, outcome := CheckVisits(b, c)
